@@ -16,7 +16,7 @@ RULE = ("TT tensors and operators of order 1-7 are built from cores (never throu
         "of eps), rmax scalar or per-bond list, four dtypes. Oracle: new object of the same shape; r' <= r, <= rmax, and "
         "<= constructed unfolding rank when eps >= 1e4 u kappa; if rmax is not binding ||dense(y)-dense(x)|| <= "
         "eps||x||(1+1e-9) + 64 d u prod_k||C_k||_F; operand cores bit-identical, not aliased. Non-trivial: some rank reduced.")
-BUDGET = {"quick": 5000, "thorough": 100000}
+BUDGET = {"quick": 5000, "thorough": 800000}
 FLOORS = {"quick": {"variant:inflate_copies": 300, "variant:inflate_zeros": 300, "variant:noise": 400, "variant:tie": 150,
                     "scrambled:1e6": 200, "zero": 100, "operator": 500, "eps=0": 200, "rmax_binding": 150,
                     "all_bonds_reduced": 200, "eps_dominant": 1500}}
